@@ -10,6 +10,8 @@ from hypothesis import strategies as st
 
 from vlib.catalogue import ALL_TYPES, TYPES
 
+HEAVY_TYPES = ("alldifferent", "gcc", "lexicographic_leq", "element_iv", "element_lic", "element_liv", "count_eq", "exactly_eq")
+
 # ----------------------------------------------------------------------------------------------
 # helpers
 # ----------------------------------------------------------------------------------------------
@@ -82,7 +84,10 @@ def params_for(draw, name, box, allow_zero_cap=False, big=False):
 # ----------------------------------------------------------------------------------------------
 @st.composite
 def box_case(draw, types=None, max_n=4, max_w=3, lo=-3, hi=4, allow_zero_cap=False, point=False, big=False):
-    name = draw(st.sampled_from(types or ALL_TYPES))
+    pool = list(types or ALL_TYPES)
+    # more weight on the propagators with deep data-dependent branching (Hall intervals, lex automaton, indices)
+    pool = pool + [x for x in pool if x in HEAVY_TYPES] * 2
+    name = draw(st.sampled_from(pool))
     t = TYPES[name]
     mw = 0 if point else max_w
     if name == "element_iv":
@@ -94,7 +99,7 @@ def box_case(draw, types=None, max_n=4, max_w=3, lo=-3, hi=4, allow_zero_cap=Fal
     n_lo = t.min_n
     n = draw(st.integers(n_lo, max(n_lo, max_n)))
     if t.even:
-        n = 2 * draw(st.integers(1, max(1, max_n // 2)))
+        n = 2 * draw(st.integers(1, max(2, max_n - 1)))  # lexicographic: up to max_n-1 pairs
     if t.boolean:
         box = [draw(bool_interval()) if not point else [draw(st.integers(0, 1))] * 2 for _ in range(n)]
     elif t.perm:
@@ -150,6 +155,7 @@ GENERAL_TYPES = [
     "relation",
 ]
 BOOL_TYPES = ["and", "exactly_true"]
+ONE_DIRECTIONAL_TYPES = ["affine_geq", "affine_leq", "max_leq", "min_geq"]
 PERM_TYPES = ["no_sub_cycle", "scc"]
 
 
@@ -216,7 +222,7 @@ def problem_case(
     max_props=3,
     max_arity=4,
     max_points=20000,
-    profiles=("general", "general", "bool", "perm", "nonneg"),
+    profiles=("general", "general", "bool", "perm", "nonneg", "wide"),
     allow_zero_cap=False,
     extra_vars=True,
     min_props=1,
@@ -240,12 +246,18 @@ def problem_case(
         # posting order is part of the input
         case["props"] = list(draw(st.permutations(case["props"])))
         return case
-    ns = draw(st.integers(1, max_shr))
+    ns = draw(st.integers(1, max_shr if profile != "wide" else min(3, max_shr)))
     shr = []
     size = 1
     for _ in range(ns):
         if profile == "bool":
             d = draw(bool_interval())
+        elif profile == "wide":
+            # few variables with wide domains: 3-way value splits with non-singleton remainders, deep restarts
+            a = draw(st.integers(-4, 3))
+            d = [a, a + draw(st.integers(3, 9))]
+            if draw(st.integers(0, 2)) == 0:
+                d = [d[0] - a, d[1] - a]  # non-negative: cost heuristics applicable
         elif profile == "nonneg":
             d = draw(interval(0, 4, max_w))
         else:
@@ -269,6 +281,8 @@ def problem_case(
             off.append(0)
     case = {"shr": shr, "idx": idx, "off": off, "props": []}
     types = GENERAL_TYPES + (BOOL_TYPES * 3 if profile == "bool" else BOOL_TYPES)
+    if profile == "wide":
+        types = types + ONE_DIRECTIONAL_TYPES * 3  # constraints that watch one bound only
     for _ in range(draw(st.integers(min_props, max_props))):
         case["props"].append(draw(propagator_on(case, types, max_arity, allow_zero_cap)))
     return case
